@@ -366,7 +366,12 @@ def run_unit(unit, xdir, specs, report, variant='main', extra_defs=(), log=print
             if 'VAC' in c[1] and key[1] == 'ensures':
                 cmdc += ['--property', '%s.postcondition.%d' % (key[0], key[2])]
     rc, out, err, dt = run(cmdc, cwd=udir, timeout=timeout, mem_gb=14)
-    open(os.path.join(udir, 'cbmc.json'), 'w').write(out)
+    import gzip
+    with gzip.open(os.path.join(udir, 'cbmc.json.gz'), 'wt') as gz:
+        gz.write(out)
+    for tmpf in ('unit.gb', 'unit2.gb'):
+        try: os.remove(os.path.join(udir, tmpf))
+        except OSError: pass
     if err == 'TIMEOUT':
         return fail('cbmc timeout after %ds' % timeout)
     try:
